@@ -1,14 +1,14 @@
 (* C20 -- property theorems only; each closed by `exact`, with Print Assumptions. *)
 From Coq Require Import List Arith Bool QArith Permutation.
 Import ListNotations.
-From PD Require Import Model.Heap Proofs.Heap Proofs.HeapWf Proofs.HeapSep Proofs.HeapNI Proofs.HeapRefine
+From PD Require Import Model.Heap Proofs.Heap Proofs.HeapWf Proofs.HeapSep Proofs.HeapTimes Proofs.HeapNI Proofs.HeapRefine
   Proofs.HeapStats Proofs.C20.
 Local Open Scope nat_scope.
 
 (* the heap model refines the simple list model: every default-flag operation commutes with the
    abstraction to plain value lists and returns the same outcome *)
 Theorem C20_abs_refines_list : forall h o,
-  wf h -> Sep h -> list_op o = true ->
+  wf h -> Sep h -> Aligned h -> list_op o = true ->
   spec_step (abs h) o = (abs (fst (exec h o)), snd (exec h o)).
 Proof. exact abs_refines_list. Qed.
 Print Assumptions C20_abs_refines_list.
@@ -24,14 +24,18 @@ Theorem C20_aliasing_ops_not_list_model : exists os, abs (run emp os) <> spec_ru
 Proof. exact aliasing_ops_not_list_model. Qed.
 Print Assumptions C20_aliasing_ops_not_list_model.
 
-(* invariants over ALL operation sequences *)
+(* invariants over ALL operation sequences: times and members have equal length for every time
+   course and track, and no times list object is held twice (two collections, or a collection and a
+   caller variable) *)
 Theorem C20_times_members_aligned : forall os,
-  (forall t tc, nth_error (tcs (run emp os)) t = Some tc -> length (tc_times tc) = length (tc_ems tc)) /\
-  (forall k tr, nth_error (trs (run emp os)) k = Some tr -> length (tr_times tr) = length (tr_drops tr)).
+  let h := run emp os in
+  (forall t tc, nth_error (tcs h) t = Some tc -> length (tc_times h tc) = length (tc_ems tc)) /\
+  (forall k tr, nth_error (trs h) k = Some tr -> length (tr_times h tr) = length (tr_drops tr)) /\
+  NoDup (tl_roots h).
 Proof. exact times_members_aligned. Qed.
 Print Assumptions C20_times_members_aligned.
 
-Theorem C20_aligned_step : forall h o, Aligned h -> Aligned (fst (exec h o)).
+Theorem C20_aligned_step : forall h o, wf h -> Aligned h -> Aligned (fst (exec h o)).
 Proof. exact aligned_step. Qed.
 Print Assumptions C20_aligned_step.
 
@@ -152,6 +156,50 @@ Theorem C20_tc_slice_independent : forall h t lo hi h' tc tc',
 Proof. exact tc_slice_independent. Qed.
 Print Assumptions C20_tc_slice_independent.
 
+(* times lists: editing one collection, or a list the caller owns, reaches no other collection *)
+Theorem C20_tc_append_frame : forall h t c tm cp,
+  wf h -> Sep h -> Aligned h ->
+  let s := abs h in let s' := abs (fst (exec h (OTcAppend t c tm cp))) in
+  (forall t', t' <> t -> nth_error (s_tcs s') t' = nth_error (s_tcs s) t') /\
+  s_trs s' = s_trs s /\ s_tvars s' = s_tvars s /\ s_hnd s' = s_hnd s /\
+  (forall c', c' < length (s_ems s) -> nth_error (s_ems s') c' = nth_error (s_ems s) c').
+Proof. exact tc_append_frame. Qed.
+Print Assumptions C20_tc_append_frame.
+
+Theorem C20_tr_append_frame : forall h k i tm,
+  wf h -> Sep h -> Aligned h ->
+  let s := abs h in let s' := abs (fst (exec h (OTrAppend k i tm))) in
+  (forall k', k' <> k -> nth_error (s_trs s') k' = nth_error (s_trs s) k') /\
+  s_tcs s' = s_tcs s /\ s_tvars s' = s_tvars s /\ s_hnd s' = s_hnd s /\ s_ems s' = s_ems s.
+Proof. exact tr_append_frame. Qed.
+Print Assumptions C20_tr_append_frame.
+
+Theorem C20_tlist_mutation_frame : forall h o,
+  wf h -> Sep h -> Aligned h ->
+  (exists j q, o = OTlistAppend j q) \/ (exists j i q, o = OTlistSet j i q) ->
+  let s := abs h in let s' := abs (fst (exec h o)) in
+  s_tcs s' = s_tcs s /\ s_trs s' = s_trs s /\ s_ems s' = s_ems s /\ s_hnd s' = s_hnd s.
+Proof. exact tlist_mutation_frame. Qed.
+Print Assumptions C20_tlist_mutation_frame.
+
+Theorem C20_tc_copy_independent : forall h t c tm cp,
+  wf h -> Sep h -> Aligned h -> t < length (tcs h) ->
+  let h1 := fst (exec h (OTcCopy t)) in
+  let t' := length (tcs h) in
+  nth_error (s_tcs (abs (fst (exec h1 (OTcAppend t' c tm cp))))) t = nth_error (s_tcs (abs h1)) t /\
+  nth_error (s_tcs (abs (fst (exec h1 (OTcAppend t c tm cp))))) t' = nth_error (s_tcs (abs h1)) t'.
+Proof. exact tc_copy_independent. Qed.
+Print Assumptions C20_tc_copy_independent.
+
+Theorem C20_tr_copy_independent : forall h k i tm,
+  wf h -> Sep h -> Aligned h -> k < length (trs h) ->
+  let h1 := fst (exec h (OTrCopy k)) in
+  let k' := length (trs h) in
+  nth_error (s_trs (abs (fst (exec h1 (OTrAppend k' i tm))))) k = nth_error (s_trs (abs h1)) k /\
+  nth_error (s_trs (abs (fst (exec h1 (OTrAppend k i tm))))) k' = nth_error (s_trs (abs h1)) k'.
+Proof. exact tr_copy_independent. Qed.
+Print Assumptions C20_tr_copy_independent.
+
 (* force_consistency *)
 Theorem C20_consistency_rejects : forall h c i cp e d l v,
   nth_error (ems h) c = Some e -> e_dtype e = Some d ->
@@ -196,8 +244,8 @@ Theorem C20_bbox_contains_members : forall k vs v p lo hi,
 Proof. exact bbox_contains_members. Qed.
 Print Assumptions C20_bbox_contains_members.
 
-Theorem C20_short_tracks_perm_invariant : forall q (ts ts' : list track),
-  Permutation ts ts' -> Permutation (filter (keeps_track q) ts) (filter (keeps_track q) ts').
+Theorem C20_short_tracks_perm_invariant : forall q (tss tss' : list (list Q)),
+  Permutation tss tss' -> Permutation (filter (keeps_times q) tss) (filter (keeps_times q) tss').
 Proof. exact short_tracks_perm_invariant. Qed.
 Print Assumptions C20_short_tracks_perm_invariant.
 
@@ -207,7 +255,7 @@ Theorem C20_nearest_minimal : forall ts t i,
 Proof. exact nearest_minimal. Qed.
 Print Assumptions C20_nearest_minimal.
 
-(* non-vacuity: a concrete history of twelve default-flag operations over all three collection types
+(* non-vacuity: a concrete history of seventeen default-flag operations over all three collection types
    reaches a well-formed, separated, aligned heap with non-trivial content; the hypotheses of the
    theorems above (wf, Sep, list_op) are therefore satisfiable *)
 Example C20_nonvacuous :
@@ -216,7 +264,8 @@ Example C20_nonvacuous :
   abs_em (run emp demo_ops) 0 = Some [mkV 0 [0%Q; 0%Q] (7#1)%Q []; vB] /\
   abs_hnd (run emp demo_ops) 0 = Some (mkV 0 [0%Q; 0%Q] (5#1)%Q []) /\
   abs_em (run emp demo_ops) 1 = Some [vA] /\
-  length (arrs (run emp demo_ops)) = 1.
+  length (arrs (run emp demo_ops)) = 1 /\
+  length (tcs (run emp demo_ops)) = 2 /\ s_tvars (abs (run emp demo_ops)) = [[(1#2)%Q; (9#1)%Q]].
 Proof.
   split; [exact demo_ops_default|].
   split; [apply reachable_wf_aligned|].
